@@ -45,7 +45,7 @@ var c16SourceFaults = map[string][]string{
 	// open class would be completed by a following `\b`)
 	"malformed-affix": {"##!$ )", "##!^ (foo", "##!$ a)", "##!^ (?i", "##!^ (", "##!$ ]x)", "##!^ x{2,1}"},
 	// a directory sits where the include / exclude file is expected (it can be opened, reading it fails)
-	"include-is-directory":     {"##!> include dirinc", "##!> include-except dirinc exc1", "##!> include-except inc1 dirinc", "##!> include dirinc -- a b"},
+	"include-is-directory": {"##!> include dirinc", "##!> include-except dirinc exc1", "##!> include-except inc1 dirinc", "##!> include dirinc -- a b"},
 	// include files nested one level deeper than the tool accepts, and a file that includes itself (twice)
 	"include-nesting-too-deep": {"##!> include deep001", "##!> include selfinc"},
 	"missing-include-absolute": {"##!> include /nonexistent/dir/birds", "##!> include-except /nonexistent/a exc1", "##!> include-except inc1 /nonexistent/x", "##!> include /nonexistent/dir/birds.ra", "##!> include /nonexistent/dir/birds -- a b"},
